@@ -46,7 +46,7 @@ type Table struct {
 	Select      string // normalised SELECT text
 	Rows        [][]string
 
-	canon string   // cached schema part of the canonical form
+	canon string    // cached schema part of the canonical form
 	fp    [2]uint64 // 128-bit digest of (database, schema, rows); maintained by seal / sealRows
 	db    string
 }
